@@ -59,8 +59,10 @@ PROPS = {
             "MantraDex.C10H.update_weights_covered_counterexample", "MantraDex.C10H.reconcile_clears",
             "MantraDex.C10Sys.winv_step", "MantraDex.C10Sys.winv_init", "MantraDex.C10Sys.weights_covered_reachable",
             "MantraDex.NonVacuity.w0_wInv", "MantraDex.NonVacuity.hist_stable", "MantraDex.NonVacuity.instance_weights",
+            "MantraDex.C10Eq.exact_step", "MantraDex.C10Eq.exact_init", "MantraDex.C10Eq.total_eq_sum_of_users", "MantraDex.C10Eq.exact_reachable",
+            "MantraDex.C10Eq.whole_history_exact", "MantraDex.C10Eq.pieces_not_exact", "MantraDex.C10Eq.partial_not_exact",
         ],
-        "extra_modules": ["MantraDex.Properties.C10H", "MantraDex.Properties.C10Sys", "MantraDex.Properties.NonVacuity"],
+        "extra_modules": ["MantraDex.Properties.C10H", "MantraDex.Properties.C10Sys", "MantraDex.Properties.NonVacuity", "MantraDex.Properties.C10Eq"],
         "streams": {"farmmath": (6000, 300000), "fm_hist": (120, 3000)},
         "what": "weight curve: weight >= amount, <= 16*amount (multiplier at one year evaluated from the generated coefficients), "
                 "monotone in amount and duration, super-additive in amount (source of F-07); update_weights moves the user's and the "
